@@ -549,7 +549,7 @@ func c17DefaultGenJob() Job {
 			defer func() { panicked = recover() }()
 			return client.DefaultNewNick(in), nil
 		}
-		for _, prefix := range []string{"", "ab", strings.Repeat("a", 30)} {
+		for _, prefix := range []string{"", "ab", strings.Repeat("a", 30), "guest1", "x9", "99", "a}", "Z~"} {
 			for b := 0; b < 256; b++ {
 				in := prefix + string([]byte{byte(b)})
 				e.Case(in)
@@ -575,7 +575,7 @@ func c17DefaultGenJob() Job {
 		if _, p := call(""); p != nil {
 			e.Fail("default-generator", "newnick-panic", Q(""), fmt.Sprintf("DefaultNewNick(\"\") panicked: %v", p), nil)
 		}
-		e.R.Bounds = append(e.R.Bounds, "all 256 values of the last byte x prefixes of length 0, 2, 30; plus the empty nick (no panic only)")
+		e.R.Bounds = append(e.R.Bounds, "all 256 values of the last byte x 8 prefixes (empty, letters, 30 bytes, ending in a digit / 9 / } / ~); plus the empty nick (no panic only)")
 		return e.Done()
 	}}
 }
@@ -595,6 +595,102 @@ func c17Configs() []c17Cfg {
 		}
 	}
 	return cfgs
+}
+
+// c17VariantsJob: welcome lines with and without the nick!user@host mask, addressed to the requested or a
+// different (e.g. truncated) nick, after 0-3 collisions answered by a STATEFUL generator (one that walks a list
+// of alternatives, so calling it twice for one collision is observable); tracking on and off.
+func c17VariantsJob() Job {
+	name := "session/welcome-and-generator-variants"
+	return Job{Name: name, Cost: 2, Run: func(jc *JobCtx) *JobResult {
+		e := NewEnum(name)
+		for _, track := range []bool{false, true} {
+			for _, stateful := range []bool{false, true} {
+				for coll := 0; coll <= 3; coll++ {
+					for _, mask := range []bool{true, false} {
+						for _, other := range []bool{false, true} {
+							var outputs []string
+							gen := func(old string) string {
+								n := fmt.Sprintf("%s-alt%d", old, len(outputs)+1)
+								outputs = append(outputs, n)
+								return n
+							}
+							in := fmt.Sprintf("track=%v stateful-generator=%v collisions=%d welcome-mask=%v welcome-other-nick=%v", track, stateful, coll, mask, other)
+							params := map[string]interface{}{"tracking": track, "stateful": stateful, "collisions": coll, "mask": mask, "other": other}
+							var fails []string
+							o := RunSeq(vx.Options{MaxSteps: 200000}, func(env *vx.Env) {
+								s, err := StartSession(env, "bob", func(c *client.Config) {
+									if stateful {
+										c.NewNick = gen
+									}
+								}, func(c *client.Conn) {
+									if track {
+										c.EnableStateTracking()
+									}
+								})
+								if err != nil {
+									return
+								}
+								cur := "bob"
+								for i := 0; i < coll; i++ {
+									n := len(s.Wire())
+									s.Feed(":srv 433 * " + cur + " :Nickname is already in use")
+									sent := ""
+									for _, l := range s.WireSince(n) {
+										if strings.HasPrefix(l, "NICK ") {
+											sent = strings.TrimPrefix(strings.TrimPrefix(l, "NICK "), ":")
+										}
+									}
+									if sent == "" || sent == cur {
+										fails = append(fails, fmt.Sprintf("collision-answer|collision %d for %q was not answered with a NICK for a different nick (sent %q)", i+1, cur, sent))
+										return
+									}
+									cur = sent
+									cfgMe := s.C.Config().Me
+									me := s.C.Me()
+									if cfgMe == nil || me == nil {
+										fails = append(fails, "me-nil|Me() or Config().Me is nil after a collision")
+										return
+									}
+									if me.Nick != cur {
+										fails = append(fails, fmt.Sprintf("me-nick|after collision %d the client asked the server for %q but Me().Nick is %q", i+1, cur, me.Nick))
+										return
+									}
+								}
+								wn := cur
+								if other {
+									wn = "bobby" // the server changed (e.g. truncated) the nick on connect
+								}
+								text := "Welcome to the Internet Relay Network"
+								if mask {
+									text += " " + wn + "!ident@host.example"
+								}
+								s.Feed(":srv 001 " + wn + " :" + text)
+								cfgMe := s.C.Config().Me
+								me := s.C.Me()
+								if cfgMe == nil || me == nil {
+									fails = append(fails, "me-nil|Me() or Config().Me is nil after the welcome")
+								} else if me.Nick != wn {
+									fails = append(fails, fmt.Sprintf("me-nick|the welcome line was addressed to %q but Me().Nick is %q", wn, me.Nick))
+								}
+								s.End()
+							})
+							e.Case(in)
+							if o.Kind != "ok" {
+								e.Fail("session-variants", o.Kind, in, "session did not finish: "+o.BlockedSig(), params)
+							}
+							for _, f := range fails {
+								sp := strings.SplitN(f, "|", 2)
+								e.Fail("session-variants", sp[0], in, sp[1], params)
+							}
+						}
+					}
+				}
+			}
+		}
+		e.Sample(map[string]interface{}{"example": "track=true stateful-generator=true collisions=2 welcome-mask=false welcome-other-nick=true"})
+		return e.Done()
+	}}
 }
 
 func init() {
@@ -623,7 +719,7 @@ func init() {
 					jobs = append(jobs, c17Job(cfg, sh, nsh, depth))
 				}
 			}
-			jobs = append(jobs, c17DefaultGenJob())
+			jobs = append(jobs, c17DefaultGenJob(), c17VariantsJob())
 			return jobs
 		},
 	})
